@@ -24,6 +24,10 @@ FIXED = {  # subject prefix (without "fix: ") -> property
  "define_type adds dependency edges in a deterministic order": "C16",
  "world include reports the first unused `with` name": "C16", "wac plug applies the plugs in command line order": "C16",
  "do not panic in Package::from_bytes on a type export": "C14",
+ "a shared import renamed to a higher version renames its interface too": "C03",
+ "a function or instance named like a used type": "C01",
+ "an explicit import that cannot be merged with an implicit import": "C01",
+ "a merged interface is named for the highest version": "C03",
 }
 out = []
 log = subprocess.run(["git", "-C", "/repo", "log", "--reverse", "--format=%h%x00%s%x00%b%x01", BASE + "..HEAD"],
